@@ -2,6 +2,7 @@ package hx
 
 import (
 	"path/filepath"
+	"strings"
 
 	"verif/sched"
 	"verif/shim/vos"
@@ -18,7 +19,11 @@ func (g *GateFS) Before(c *vos.Call) {
 	if g.Filter != nil && !g.Filter(c) {
 		return
 	}
-	sched.Gate(&sched.Op{Kind: "fs", Label: "fs." + c.Op + "(" + filepath.Base(c.Path) + ")"})
+	base := filepath.Base(c.Path)
+	if i := strings.Index(base, ".tmp"); i >= 0 {
+		base = base[:i+4] // temporary names carry random digits
+	}
+	sched.Gate(&sched.Op{Kind: "fs", Label: "fs." + c.Op + "(" + base + ")"})
 	if g.OnCall != nil {
 		g.OnCall(c)
 	}
